@@ -783,12 +783,15 @@ class CFG:
                 ast.copy_location(synth, e)
                 self._node('call', synth, synthetic_for=e)
                 return
-            if isinstance(bound, ast.Name) and e.args and not e.keywords:
-                # operator.methodcaller('m', *a) bound to a local of the caller: run(obj) is obj.m(*a)
+            if isinstance(bound, (ast.Name, ast.Call)) and e.args and not e.keywords:
+                # operator.methodcaller('m', *a) - given directly or bound to a local of the caller: run(obj) is obj.m(*a)
                 from .match import closure_value
                 host = getattr(ic, 'caller_scope', None)
-                v = closure_value(host, bound.id) if host is not None else None
-                if isinstance(v, ast.Call) and Resolver(host).path(v.func) == 'operator.methodcaller' and v.args \
+                if isinstance(bound, ast.Call):
+                    v = bound
+                else:
+                    v = closure_value(host, bound.id) if host is not None else None
+                if host is not None and isinstance(v, ast.Call) and Resolver(host).path(v.func) == 'operator.methodcaller' and v.args \
                         and isinstance(v.args[0], ast.Constant) and isinstance(v.args[0].value, str) and not v.keywords:
                     fn_ = ast.Attribute(value=e.args[0], attr=v.args[0].value, ctx=ast.Load())
                     synth = ast.Call(func=fn_, args=list(v.args[1:]) + list(e.args[1:]), keywords=[])
@@ -1032,7 +1035,7 @@ class CFG:
         c.return_through = return_through
         c.caller_scope = self.cur_scope
         c.callables = {prm: arg for prm, arg in binding
-                       if isinstance(arg, (ast.Lambda, ast.Attribute)) or (isinstance(arg, ast.Name) and not isinstance(arg, ast.Constant))}
+                       if isinstance(arg, (ast.Lambda, ast.Attribute, ast.Call)) or (isinstance(arg, ast.Name) and not isinstance(arg, ast.Constant))}
         self.ctx.append(c)
         self._inlining.append(t.qualname)
         saved_res = self.res
